@@ -46,4 +46,67 @@ def deepen(pid, root, base_keys):
     for name, status, info in applied:
         if status != "PASS":
             warnings.append(f"SELFTEST-WARNING property={pid} corpus entry '{name}' did not behave as expected: {info[:160]}")
+    try:
+        out["mutation_sweep"] = mutation_sweep(pid, root)
+    except Exception as e:          # advisory, like everything in this tier
+        out["mutation_sweep"] = {"error": f"{type(e).__name__}: {e}"}
     return out, warnings
+
+
+def mutation_sweep(pid, root, per_function=6, cap=160):
+    """Sensitivity of this property's check on the tree as it is: every function the check analyses is mutated mechanically at the
+    AST level (relational / arithmetic operator, constant, argument or keyword exchange, statement deletion, parameter substitution;
+    one site per mutant, sites drawn with VERIF_SEED), the check is run on each mutant, and the outcome is counted.  A silent
+    mutant is not a defect of the tree and not necessarily one of the checker (many are equivalent: decorator flags, asserts,
+    initial states); the list is kept in the evidence file for reading."""
+    import ast, json, random, tempfile, collections
+    import mutscore
+    rng = random.Random(int(os.environ.get("VERIF_SEED", "0")) + 20260101)
+    evd = tempfile.mkdtemp(prefix="sa_ev_")
+    try:
+        subprocess.run([sys.executable, str(HERE / "check.py"), pid, "--root", root, "--evidence", evd], capture_output=True, env=dict(os.environ, VERIF_TIER="quick"))
+        funcs = json.load(open(os.path.join(evd, pid + ".json")))["coverage"]["functions_analysed"]
+    finally:
+        shutil.rmtree(evd, ignore_errors=True)
+    mutants = []
+    for fq in funcs:
+        rel, qual = mutscore.module_of(root, fq)
+        if rel is None:
+            continue
+        src = pathlib.Path(root, rel).read_text()
+        fn = mutscore.find_function(ast.parse(src), qual)
+        if fn is None:
+            continue
+        ss = [x for x in mutscore.sites(fn) if not (x[0] == 'CR' and 'True' in x[2] and 'line %d' % fn.lineno in x[2])]
+        rng.shuffle(ss)
+        bykind = collections.defaultdict(list)
+        for x in ss:
+            bykind[x[0]].append(x)
+        chosen = []
+        while len(chosen) < per_function and any(bykind.values()):
+            for k in sorted(bykind):
+                if bykind[k] and len(chosen) < per_function:
+                    chosen.append(bykind[k].pop())
+        base = ast.unparse(ast.parse(src))
+        for kind, where, desc in chosen:
+            t2 = ast.parse(src)
+            mutscore.apply(mutscore.find_function(t2, qual), kind, where, rng)
+            ast.fix_missing_locations(t2)
+            new = ast.unparse(t2)
+            if new == base:
+                continue
+            try:
+                compile(new, rel, 'exec')
+            except Exception:
+                continue
+            mutants.append(dict(file=rel, function=fq, kind=kind, desc=desc, props=[pid], source=new))
+    rng.shuffle(mutants)
+    mutants = mutants[:cap]
+    with ThreadPoolExecutor(max_workers=8) as ex:
+        res = list(ex.map(lambda m: mutscore.run_mutant(root, m, None), mutants))
+    viol = sum(1 for h in res if any(x[1] == 'violation' for x in h))
+    aerr = sum(1 for h in res if h and not any(x[1] == 'violation' for x in h))
+    silent = [f"{m['function'].split('.')[-1]}: {m['kind']} {m['desc'][:90]}" for m, h in zip(mutants, res) if not h]
+    return {"functions": len(funcs), "mutants": len(mutants), "reported_as_violation": viol, "analysis_error_only": aerr,
+            "silent": len(silent), "silent_examples": silent[:40],
+            "note": "silent mutants are listed for reading; equivalent mutants (asserts, decorator flags, initial states, tie-breaking) are expected among them"}
